@@ -140,10 +140,15 @@ func c18PrefixProg(base *Prog, items []topItem, i int, id string) *Prog {
 	return p
 }
 
+// c18Source joins the statements of a chunk; chunks that start at an odd statement index carry no
+// final newline (the end of the input then ends the last statement)
 func c18Source(items []topItem, lo, hi int) string {
 	var ss []string
 	for _, it := range items[lo:hi] {
 		ss = append(ss, it.text)
+	}
+	if lo%2 == 1 {
+		return strings.Join(ss, "\n")
 	}
 	return strings.Join(ss, "\n") + "\n"
 }
@@ -247,6 +252,20 @@ var c18PoolStmts = []poolStmt{
 	{"const k = 7", nil, []string{"k"}},
 	{"total += k", []string{"k", "total"}, nil},
 	{"var late int", nil, []string{"late"}},
+	{"var cb func(int) int", nil, []string{"cb"}},
+	{"var cbv func(int)", nil, []string{"cbv"}},
+	{"println(cb == nil, cbv == nil)", []string{"cb", "cbv"}, nil},
+	{"cb = add1", []string{"cb", "add1"}, []string{"cbset"}},
+	{"func add1(a int) int {\n\treturn a + 1\n}", nil, []string{"add1"}},
+	{"println(cb(41))", []string{"cb", "add1", "cbset"}, nil},
+	{"var names []string", nil, []string{"names"}},
+	{"names = append(names, name)", []string{"names", "name"}, nil},
+	{"var byName map[string]int", nil, []string{"byName"}},
+	{"println(len(names), len(byName), byName[\"q\"])", []string{"names", "byName"}, nil},
+	{"import str \"strings\"", nil, []string{"str"}},
+	{"println(str.Repeat(name, 2))", []string{"str", "name"}, nil},
+	{"for i := 0; ; i++ {\n\tif i > 2 {\n\t\tbreak\n\t}\n\ttotal += i\n}", []string{"total"}, nil},
+	{"for ; total < 40; total += 7 {\n}", []string{"total"}, nil},
 	{"late = late + total", []string{"late", "total"}, nil},
 }
 
